@@ -54,11 +54,20 @@ type CursorStep struct {
 }
 
 func (in *Interp) execBlock(st *State, list []ast.Stmt) (*State, bool) {
+	pushed := 0
+	defer func() { in.guards = in.guards[:len(in.guards)-pushed] }()
 	for _, s := range list {
 		var term bool
+		in.contGuard = ""
 		st, term = in.exec(st, s)
 		if term {
 			return st, true
+		}
+		if in.contGuard != "" {
+			// one arm of the if returned successfully: the rest of the block runs only on the other arm
+			in.guards = append(in.guards, in.contGuard)
+			pushed++
+			in.contGuard = ""
 		}
 	}
 	return st, false
@@ -504,8 +513,10 @@ func (in *Interp) execIf(st *State, x *ast.IfStmt) (*State, bool) {
 	sa := st.clone()
 	in.assume(sa, x.Cond, true)
 	in.guards = append(in.guards, c)
+	r0 := len(in.Rets)
 	sa, ta := in.execBlock(sa, x.Body.List)
 	in.guards = in.guards[:len(in.guards)-1]
+	r1 := len(in.Rets)
 	sb := st.clone()
 	in.assume(sb, x.Cond, false)
 	tb := false
@@ -514,12 +525,33 @@ func (in *Interp) execIf(st *State, x *ast.IfStmt) (*State, bool) {
 		sb, tb = in.exec(sb, x.Else)
 		in.guards = in.guards[:len(in.guards)-1]
 	}
+	r2 := len(in.Rets)
+	// an arm that ends in a successful return (not an error exit, not a break/continue) splits the
+	// successful executions: what follows belongs to the other arm only
+	okReturn := func(lo, hi int) bool {
+		if hi <= lo {
+			return false
+		}
+		for _, r := range in.Rets[lo:hi] {
+			if r.IsErr {
+				return false
+			}
+		}
+		return true
+	}
+	in.contGuard = ""
 	switch {
 	case ta && tb:
 		return sa, true
 	case ta:
+		if okReturn(r0, r1) {
+			in.contGuard = negCond(c)
+		}
 		return sb, false
 	case tb:
+		if okReturn(r1, r2) {
+			in.contGuard = c
+		}
 		return sa, false
 	}
 	return in.join(c, sa, sb), false
